@@ -58,6 +58,8 @@ func NewRouter(doc *openapi3.T) (routers.Router, error) {
 	r := &Router{}
 	for _, path := range doc.Paths.InMatchingOrder() {
 		pathItem := doc.Paths.Value(path)
+		// servers of a path item replace the document's for this path only
+		servers := servers
 		if len(pathItem.Servers) > 0 {
 			if servers, err = makeServers(pathItem.Servers); err != nil {
 				return nil, err
